@@ -6,6 +6,7 @@ the same call with plain tensors for the value, the log for 'exactly once / neve
 never for graph=True / never for rejected calls', and misbehaving factories must make the call fail.
 """
 import functools
+import os
 import inspect
 import random
 import sys
@@ -202,7 +203,7 @@ def run(spec, out):
                         out.violation({"kind": "factory-name", "label": label}, {**cj, "pos": p, "got": e["kwargs"]["name"]}, f"name={e['kwargs']['name']!r} for op {case.op}")
                 if e["tracing"]:
                     out.violation({"kind": "factory-invoked-while-compiling", "label": label}, {**cj, "pos": p}, f"{case.op}({desc!r}) [{label}]: factory invoked while the graph was being constructed")
-                if e["caller"][0] != "<string>":
+                if not (e["caller"][0].startswith("<") or not os.path.exists(e["caller"][0])):  # generated code has no source file (whatever pseudo file name it is given)
                     out.violation({"kind": "factory-not-called-from-generated-code", "label": label}, {**cj, "pos": p, "caller": e["caller"]}, f"factory called from {e['caller']}")
                 out.count("factory_invocations_checked")
 
